@@ -51,3 +51,12 @@ Theorem nonrev_complete :
   nr_challenge_contributions pk (mkNr (Some (nc_cr c)) (Some (nc_cu c)) (Some (nc_nu c)) (Some ch) (Some resp) sacc)
   = Ok (map Some l).
 Proof. exact nr_complete_lem. Qed.
+
+(* An accepted non-revocation part has commitments C_r, C_u that are invertible modulo N. Without this check
+   C_u = 0 (mod N) made the relation nu = C_u^alpha h^(-beta) vacuous and the holder of a revoked credential
+   could forge an accepted proof (found by the cheating prover of the C11 suite, repaired in the repository). *)
+Theorem nonrev_commitments_are_units :
+  forall pk p choice l p' nr,
+  proofD_contrib pk p choice = Ok (l, p') -> pd_nr p = Some nr ->
+  exists cr cu, nr_Cr nr = Some cr /\ nr_Cu nr = Some cu /\ Z.gcd cr (pk_N pk) = 1 /\ Z.gcd cu (pk_N pk) = 1.
+Proof. exact nonrev_commitments_are_units_lem. Qed.
